@@ -60,8 +60,9 @@ def same_value(v, w):
     return v == w
 
 
-def carries(v, w):
-    """w carries the substituted data v at the substituted positions: scalars equal,
+def carries(v, w, precisions=()):
+    """w carries the substituted data v at the substituted positions: scalars equal (floats
+    within math.isclose, or equal after rounding to one of the declared precisions),
     lists element-wise, dicts on every key given."""
     kv, kw = _kind(v), _kind(w)
     if {kv, kw} <= {"bool", "int"}:
@@ -70,11 +71,19 @@ def carries(v, w):
         # a date schema pinned with a date accepts only dates; kinds must agree
         return False
     if kv == "float":
-        return math.isclose(v, w)
+        if math.isclose(v, w):
+            return True
+        for p in precisions:
+            try:
+                if round(v * 10 ** p) == round(w * 10 ** p):
+                    return True
+            except (OverflowError, ValueError):
+                pass
+        return False
     if kv == "list":
-        return len(v) == len(w) and all(carries(a, b) for a, b in zip(v, w))
+        return len(v) == len(w) and all(carries(a, b, precisions) for a, b in zip(v, w))
     if kv == "dict":
-        return all(k in w and carries(v[k], w[k]) for k in v)
+        return all(k in w and carries(v[k], w[k], precisions) for k in v)
     return v == w
 
 
